@@ -26,6 +26,7 @@ func init() {
 	register(&Prop{
 		ID: "C05",
 		Rule: "values of every element kind and of the OSM / Change containers from a seed (every optional field toggled, annotated way nodes, top-level bounds present incl. all-zero, strings needing JSON escapes), marshalled and unmarshalled under four codec configurations (standard; custom marshaler+unmarshaler; each alone) with osmjson shape checks on the generic parse; independently written osmjson documents (version absent / string / number, unknown keys at every level, random key order and layout, \\u escapes, top-level bounds, overpass-style way bounds/geometry); container plans, version decoding, tags and way nodes compared with the model; " +
+			"every value marshalled through a pointer and by value; note dates with fractional seconds; references beyond 2^53; " +
 			"non-trivial = every op; distinct = distinct op line",
 		Gen:  c05Gen,
 		Exec: c05Exec,
